@@ -15,7 +15,8 @@ Laws (names are the violation keys):
                                                   the answer is exactly the newest-first prefix (min(limit,100))
                                                   of the live messages in [since,before) not soft-deleted by the requester
   delete-needs-permission                        200 only with R or D in the effective mode, else 403 and no effect
-  soft-delete-without-read                       (known finding) a soft delete is accepted from a user with D but without R
+  soft-delete-without-read                       a soft delete (asked soft, or silently soft for lack of D) is accepted only with R
+                                                  (c04_soft_needs_read; was finding F2, fixed in /repo 2721db4 - a regression is a VIOLATION)
   delete-next-number                             del of the reply = stored counter + 1 = stored counter afterwards
   hard-needs-delete-permission                   without D the request is soft: log written for the requester, no message row touched
   hard-deletes-for-everyone                      with D and hard=true the log is written for everyone
@@ -361,8 +362,9 @@ def monitor(sc, views):
                     eff_hard = hard_asked and "D" in mode
                     ids = req_ids(lastid, req)
                     if not eff_hard and "R" not in mode:
-                        # known finding: the code asks for R only when D is missing (c04_soft_needs_read_refuted)
-                        res.append(("soft-delete-without-read", k, "soft delete accepted from user %s whose effective mode %r has D but no R" % (actor, mode)))
+                        # c04_soft_needs_read: every deletion that is not hard-effective needs R (the gate before
+                        # /repo 2721db4 asked for R only when D was missing: c04_gate_unrepaired_refuted)
+                        res.append(("soft-delete-without-read", k, "soft delete accepted from user %s whose effective mode %r has no R" % (actor, mode)))
                     if d != prev.topic.get("delid", 0) + 1 or v.topic.get("delid") != d:
                         res.append(("delete-next-number", k, "reply del=%d, stored counter before %s, after %s" % (d, prev.topic.get("delid"), v.topic.get("delid"))))
                     new = [e for e in v.dellog if e not in prev.dellog]
